@@ -120,6 +120,27 @@ def gen_chain(rng):
             "headers": [["Authorization", "78"], ["Accept", "79"]] if rng.random() < 0.3 else [], "body": "", "script": script}
 
 
+def ctx_cases():
+    """the SDK's own default stack (Context::resolver(), real HTTP client) against a loopback server that redirects"""
+    return [{"kind": "ctx", "allowed": ["127.0.0.1:{port}"], "allow_redirects": True, "location": "http://other.example.invalid/x"},
+            {"kind": "ctx", "allowed": ["http://127.0.0.1:{port}", "*.example.org"], "allow_redirects": True, "location": "https://example.org/"},
+            {"kind": "ctx", "allowed": ["example.org"], "allow_redirects": True, "location": "/relative"},
+            {"kind": "ctx", "allowed": [], "allow_redirects": True, "location": "/relative"}]
+
+
+def oracle_ctx(ctx, c, r, stats):
+    if r["r"] == "no_loopback":
+        stats["ctx_skipped"] = stats.get("ctx_skipped", 0) + 1
+        return
+    stats["ctx_runs"] = stats.get("ctx_runs", 0) + 1
+    hop0_ok = any("127.0.0.1:{port}" in p for p in c["allowed"])
+    want_served = 1 if hop0_ok else 0
+    if not (r["r"] == "err" and r.get("kind") == "UriDisallowed" and len(r["served"]) == want_served):
+        ctx.report_violation(c, f"default resolver stack with allow-list {c['allowed']}: the request chain /start -> {c['location']!r} ended with "
+                                f"{r['r']}:{r.get('kind') or r.get('status')} after {len(r['served'])} requests to the local server "
+                                f"(expected UriDisallowed after {want_served})")
+
+
 def corpus():
     p = os.path.join(common.VERIF, "corpus", "C26.jsonl")
     if not os.path.exists(p):
@@ -243,6 +264,8 @@ def evaluate(ctx, cases, with_model=True):
             exprs.append(f"let p := parse_pattern {H.cb(p)} in (p_pattern p, p_scheme p, p_host p, p_port p, "
                          f"matches p {H.copt(u['scheme'])} {H.copt(u['host'])} {H.copt(u['port'])})")
             meta.append((c, r, "fields"))
+        elif k == "ctx":
+            oracle_ctx(ctx, c, r, stats)
         elif k == "chain":
             if r["r"] in ("uri_err", "bad_case"):
                 stats["uri_err"] += 1
@@ -280,7 +303,7 @@ def run(ctx):
         cases = [ctx.replay["case"]] if "case" in ctx.replay else [d["case"] for d in ctx.replay.get("disagreements", [])]
     else:
         q = ctx.quick()
-        cases = corpus()
+        cases = corpus() + ctx_cases()
         cases += [gen_match(ctx.rng) for _ in range(1500 if q else 15000)]
         cases += [gen_chain(ctx.rng) for _ in range(600 if q else 8000)]
     for i, c in enumerate(cases):
@@ -299,7 +322,7 @@ def run(ctx):
 
 def search(ctx):
     common.build_harness()
-    cases = [gen_match(ctx.rng) for _ in range(20000)] + [gen_chain(ctx.rng) for _ in range(8000)]
+    cases = ctx_cases() + [gen_match(ctx.rng) for _ in range(20000)] + [gen_chain(ctx.rng) for _ in range(8000)]
     for i, c in enumerate(cases):
         c["id"] = i
     evaluate(ctx, cases, with_model=False)
